@@ -9,8 +9,10 @@ CONSTANTS
   FixDup = TRUE
   AutoSave = TRUE
   MaxEnv = 1
+  Names = FALSE
+  RoundRobin = FALSE
   FullLast = TRUE
   DupAlso = FALSE
-INVARIANTS Safe SafeWire CompleteWhenInOrder DirJustified EmitScn
+INVARIANTS Safe SafeWire CompleteWhenInOrder DirJustified IdxDesignates EmitScn
 PROPERTY DirGrowsOnly
 CHECK_DEADLOCK FALSE
